@@ -67,4 +67,40 @@ def billCondsExpected : String :=
 theorem bill_conds_src : bill_conds = billCondsExpected := rfl
 theorem bill_calls_src : bill_calls = "ri.DeviceData,billStat.Record,queryLog.Write" := by decide
 
+/-! ### Production wiring (round 4): `internal/cmd` builds one recorder and hands the same one to
+the DNS service, the refresh worker and the debug API; the uploader gets the billing URL and key;
+the worker refreshes on shutdown and is registered in the signal handler before the DNS service
+(the handler shuts down in reverse order, so the DNS service stops first). -/
+
+def wireRecorderExpected : String :=
+  "&billstat.RuntimeRecorderConfig{ Logger: b.baseLogger.With(slogutil.KeyPrefix, \"billstat\"), ErrColl: b.errColl, Uploader: upl, Metrics: mtrc, }"
+theorem wire_recorder_conf_src : wire_recorder_conf = wireRecorderExpected := rfl
+/-- exactly one recorder is built -/
+theorem wire_recorder_count_src : wire_recorder_count = "1" := by decide
+def wireWorkerExpected : String :=
+  "&agdservice.RefreshWorkerConfig{ Context: newCtxWithTimeoutCons(timeout), Refresher: billStat, Logger: b.baseLogger.With(slogutil.KeyPrefix, \"billstat_refresh\"), Interval: refrIvl, RefreshOnShutdown: true, RandomizeStart: false, }"
+theorem wire_worker_conf_src : wire_worker_conf = wireWorkerExpected := rfl
+theorem wire_dns_recorder_off_src : wire_dns_recorder_off = "billstat.EmptyRecorder{}" := by decide
+theorem wire_dns_recorder_src : wire_dns_recorder = "billStat" := by decide
+theorem wire_debug_refresher_src : wire_debug_refresher = "billStat" := by decide
+theorem wire_sighdlr_src : wire_sighdlr = "refr" := by decide
+theorem wire_conds_src : wire_conds = "!b.profilesEnabled | err != nil | err != nil | err != nil" := by decide
+def wireUploaderExpected : String :=
+  "&backendpb.BillStatConfig{ Logger: b.baseLogger.With(slogutil.KeyPrefix, \"billstat_uploader\"), ErrColl: b.errColl, GRPCMetrics: b.backendGRPCMtrc, Endpoint: apiURL, APIKey: b.env.BillStatAPIKey, }"
+theorem wire_uploader_conf_src : wire_uploader_conf = wireUploaderExpected := rfl
+theorem wire_uploader_url_src : wire_uploader_url = "netutil.CloneURL(&b.env.BillStatURL.URL)" := by decide
+/-- `mustStartDNS` registers the DNS service; `Main` calls it after `initBillStat`. -/
+theorem wire_dns_started_src : wire_dns_started = "b.dnsSvc" := by decide
+theorem wire_main_order_src : wire_main_order = "initBillStat,initDNS,mustStartDNS,handleSignals" := by decide
+/-- `RefreshWorker.Shutdown` refreshes (iff `refrOnShutdown`) before it stops the loop; the
+periodic refresh takes its context from the constructor the builder passed. -/
+theorem wire_worker_shutdown_src : wire_worker_shutdown = "refr.Refresh,close" := by decide
+theorem wire_worker_shutdown_conds_src : wire_worker_shutdown_conds = "w.refrOnShutdown | err != nil" := by decide
+theorem wire_worker_refresh_ctx_src : wire_worker_refresh_ctx = "w.context()" := by decide
+/-- `initDNS` hands `b.billStat` to the handlers: `BillStat: b.billStat` (the whole literal is compared;
+a new field of `HandlersConfig` needs this expectation to follow). -/
+def wireHandlersExpected : String :=
+  "&dnssvc.HandlersConfig{ BaseLogger: b.baseLogger, Cache: b.conf.Cache.toInternal(), Cloner: b.cloner, HumanIDParser: agd.NewHumanIDParser(), Messages: b.messages, PluginRegistry: b.plugins, StructuredErrors: b.sdeConf, AccessManager: b.access, BillStat: b.billStat, CacheManager: b.cacheManager, DNSCheck: b.dnsCheck, DNSDB: b.dnsDB, ErrColl: b.errColl, FilterStorage: b.filterStorage, GeoIP: b.geoIP, Handler: b.fwdHandler, HashMatcher: b.hashMatcher, ProfileDB: b.profileDB, PrometheusRegisterer: b.promRegisterer, QueryLog: b.queryLog(), RateLimit: b.rateLimit, RuleStat: b.ruleStat, MetricsNamespace: b.mtrcNamespace, FilteringGroups: b.filteringGroups, ServerGroups: b.serverGroups, EDEEnabled: b.conf.Filters.EDEEnabled, }"
+theorem wire_handlers_conf_src : wire_handlers_conf = wireHandlersExpected := rfl
+
 end Agd.Tie.C16
